@@ -79,10 +79,15 @@ struct EState {
     panics_caught: u64,
     inline_runs: u64,
     boxed_runs: u64,
+    exits_while_peer_pinned: u64,
     trace: Vec<String>,
 }
 
 static ES: Mutex<Option<EState>> = Mutex::new(None);
+/// Which property a "pinned participant lags by more than one epoch" observation is reported
+/// under: C14 normally; C18 when the registry-churn family of C18 runs this world (an advancement
+/// that left a registered pinned participant behind has overlooked it).
+static LAG_PROP: Mutex<&'static str> = Mutex::new("C14");
 
 fn with<R>(f: impl FnOnce(&mut EState) -> R) -> R {
     let mut g = match ES.lock() {
@@ -273,8 +278,9 @@ fn sample(me: usize, _site: u32) {
                 if gap > 1 {
                     let sites = sched::stall_sites();
                     let names: Vec<&str> = sites.iter().map(|s| sched::site_name(*s)).collect();
+                    let lag_prop = *LAG_PROP.lock().unwrap();
                     violation(
-                        "C14",
+                        lag_prop,
                         "O-clock",
                         &format!("O-clock/pinned-lags/stall={{{}}}", names.join(",")),
                         &format!("thread t{} is pinned at epoch {} while the global epoch is {}; trace: {}", t, a >> 1, g >> 1, tail(e)),
@@ -583,6 +589,7 @@ pub fn run_case(case: &EbrCase) -> Report {
             panics_caught: 0,
             inline_runs: 0,
             boxed_runs: 0,
+            exits_while_peer_pinned: 0,
             trace: Vec::new(),
         });
     }
@@ -627,6 +634,9 @@ pub fn run_case(case: &EbrCase) -> Report {
                     with(|e| {
                         e.exited[t] = true;
                         e.trace.push(format!("t{}:exit", t));
+                        if e.checked.iter().enumerate().any(|(o, c)| o != t && *c) {
+                            e.exits_while_peer_pinned += 1;
+                        }
                     });
                     refresh(t);
                     sched::op_done();
@@ -683,6 +693,7 @@ pub fn run_case(case: &EbrCase) -> Report {
         rep.count("inline_closure_runs", e.inline_runs);
         rep.count("boxed_closure_runs", e.boxed_runs);
         rep.count("max_nesting", e.max_nest);
+        rep.count("exits_while_peer_pinned", e.exits_while_peer_pinned);
     });
     rep.count("steps", summary.steps);
     rep.count("switches", summary.switches);
@@ -697,12 +708,16 @@ fn get(r: &Report, k: &str) -> u64 {
 
 pub fn exec(prop: &str, v: &Value) -> Report {
     let case: EbrCase = serde_json::from_value(v.clone()).expect("bad EbrCase");
+    if prop == "C18" {
+        *LAG_PROP.lock().unwrap() = "C18";
+    }
     let mut rep = if case.private { run_private(&case) } else { run_case(&case) };
     rep.nontrivial = match prop {
         "C13" => get(&rep, "executed_with_peer_cs_active_at_defer") >= 1 || (case.private && get(&rep, "executed") >= 1 && get(&rep, "private_defers_under_peer_guard") >= 1),
         "C14" => get(&rep, "epoch_advances_while_some_thread_pinned") >= 2 && get(&rep, "repins_while_pinned") >= 1,
         "C15" => get(&rep, "executed_by_other_after_deferrer_exit") >= 1 || (case.private && get(&rep, "executed_at_collector_drop") >= 1),
         "C16" => get(&rep, "max_nesting") >= 2 && get(&rep, "reactivations") >= 1,
+        "C18" => get(&rep, "exits_while_peer_pinned") >= 1 && get(&rep, "epoch_advances_while_some_thread_pinned") >= 1,
         _ => get(&rep, "executed") >= 1,
     };
     rep.label(if case.private { "private-collector" } else { "default-collector" });
@@ -743,6 +758,7 @@ fn run_private(case: &EbrCase) -> Report {
             panics_caught: 0,
             inline_runs: 0,
             boxed_runs: 0,
+            exits_while_peer_pinned: 0,
             trace: Vec::new(),
         });
     }
@@ -954,6 +970,16 @@ pub const EW_EXIT: EW = &[
     (5, EK::Burst),
     (2, EK::Reactivate),
     (2, EK::DeferNested),
+];
+
+pub const EW_CHURN: EW = &[
+    (1, EK::Nop),
+    (14, EK::Round),
+    (12, EK::Pin),
+    (6, EK::DropGuard),
+    (4, EK::Defer),
+    (2, EK::Flush),
+    (3, EK::Reactivate),
 ];
 
 pub const SITES_EBR: &[u32] = &[
